@@ -396,7 +396,7 @@ pub fn run(out: &mut Out, tier: &str, seed: u64, prop: &str) {
             let text = crate::req::unescape(rest);
             let pa = parse_case(out, &mut w, prop, "m", &text);
             out.stat("corpus.cases");
-            if prop == "C07" && !pa.answer.starts_with("ok ") {
+            if prop == "C07" && tag == "C07" && !pa.answer.starts_with("ok ") {
                 out.oracle_fail("C07", &format!("a marker derivable from the PEP 508 grammar is rejected: {}", pa.answer), serde_json::json!({"text": text, "class": "corpus"}));
             }
         }
